@@ -264,8 +264,18 @@ def gen_case(rng, i=0):
 
     def share(d):
         # some compounds get the same keyword arguments as their first child (on-the-fly creation of the parent)
-        if d['children'] and not d['initial'] and r.random() < 0.35:
+        if d['children'] and not d['initial'] and r.random() < 0.4:
             c = d['children'][0]
+            # keyword arguments of the add_states call that creates parent(s) and leaf from one joined name:
+            # final=True, callbacks, ignore_invalid_triggers - all of them reach every state created by the call
+            if r.random() < 0.6:
+                d['final'] = True
+            if r.random() < 0.5:
+                d['ignore'] = r.choice([True, False])
+            if not d['enter'] and r.random() < 0.5:
+                d['enter'] = g.cbs(2, 0.0)
+            if not d['onfinal'] and r.random() < 0.5:
+                d['onfinal'] = g.cbs(2, 0.0)
             for k in ('enter', 'exit', 'onfinal', 'final', 'ignore'):
                 c[k] = d[k]
             c['initial'] = []
